@@ -37,6 +37,60 @@ theorem outside_changed_survives (ivs : List Iv) (c : Comment)
   · have : ¬ c.stop ≤ i.e := by omega
     simp [this]
 
+/-- **Comments of an untouched declaration survive**, given what astdiff owes the filter: if no changed interval
+reaches into the extent of a declaration (`respects`, evaluated on the real engine's intervals on every run), every
+comment lying within that extent — its doc comment, the comments inside it, those trailing its last line — is kept. -/
+theorem untouched_declaration_keeps_comments (ivs : List Iv) (untouched : List Extent) (x : Extent) (c : Comment)
+    (hr : respects ivs untouched = true) (hx : x ∈ untouched) (hin : x.s ≤ c.pos ∧ c.stop ≤ x.e) (hne : c.pos < c.stop) :
+    dropped ivs c = false := by
+  unfold dropped
+  rw [List.any_eq_false]
+  intro i hi
+  have h1 := (List.all_eq_true.1 hr) i hi
+  have h2 := (List.all_eq_true.1 h1) x hx
+  unfold clearOf at h2
+  unfold inside
+  simp only [Bool.or_eq_true, beq_iff_eq, decide_eq_true_eq] at h2
+  rcases h2 with (h0 | h3) | h4
+  · simp [h0]
+  · have : ¬ c.stop ≤ i.e := by omega
+    simp [this]
+  · have : ¬ i.s ≤ c.pos := by omega
+    simp [this]
+
+/-- the driver reports an offending (interval, declaration) pair exactly when `respects` fails -/
+theorem no_offender_iff_respects (ivs : List Iv) (untouched : List Extent) :
+    offender ivs untouched = none ↔ respects ivs untouched = true := by
+  unfold offender respects
+  rw [List.find?_eq_none]
+  simp only [List.mem_flatMap, List.mem_map, Bool.not_eq_true', Bool.not_eq_false, List.all_eq_true]
+  constructor
+  · intro h i hi x hx
+    have := h (i, x) ⟨i, hi, x, hx, rfl⟩
+    simpa using this
+  · rintro h ⟨i, x⟩ ⟨i', hi, x', hx, heq⟩
+    cases heq
+    simpa using h i hi x hx
+
+/-- and after any number of changes: it is still there, exactly as often as before -/
+theorem untouched_declaration_keeps_comments_all (changes : List (List Iv)) (untouched : List Extent) (x : Extent)
+    (hr : ∀ ivs ∈ changes, respects ivs untouched = true) (hx : x ∈ untouched) (cs : List Comment) (c : Comment)
+    (hin : x.s ≤ c.pos ∧ c.stop ≤ x.e) (hne : c.pos < c.stop) :
+    (changes.foldl (fun acc ivs => filterComments ivs acc) cs).count c = cs.count c := by
+  induction changes generalizing cs with
+  | nil => rfl
+  | cons ivs rest ih =>
+    simp only [List.foldl_cons]
+    rw [ih (fun i hi => hr i (List.mem_cons_of_mem _ hi))]
+    have hd := untouched_declaration_keeps_comments ivs untouched x c (hr ivs (List.mem_cons_self ..)) hx hin hne
+    unfold filterComments
+    rw [List.count_filter]
+    simp [hd]
+
+/-- the witness of the repaired defect F21: an interval that starts in one rewritten declaration and ends in another
+reaches into the untouched declaration between them, and its comment is dropped -/
+example : respects [⟨417, 491⟩] [⟨430, 470⟩] = false ∧ dropped [⟨417, 491⟩] ⟨437, 455, "// free-standing 6"⟩ = true := by decide
+
 /-- intervals that start at NoPos (what astdiff reports for nodes without a position, e.g. a
 freshly added import) never remove a comment: the file's header and package comments, which
 precede every node with a position, are out of reach of the filter -/
